@@ -1,5 +1,5 @@
 #!/bin/bash
-# usage: tools/ingest_seed.sh <pid-lower> <n> "<needs>"
+# usage: tools/ingest_seed.sh <pid-lower> <n> "<needs>" [<outdir>] [<store-number>]
 # Confirms an independently written breaking change in its scratch worktree
 # (/tmp/seed-<pid>): demo passes without / fails with the change; pinned suite
 # and all-features lib tests stay green with it; then stores it under
@@ -7,11 +7,11 @@
 set -u
 pid="$1"; n="$2"; needs="${3:-see notes}"
 PID="$(echo "$pid" | tr a-z A-Z)"
-wt="/tmp/seed-$pid"; out="/tmp/seed-out/$pid"
+wt="/tmp/seed-$pid"; out="${4:-/tmp/seed-out/$pid}"; store="${5:-$n}"
 export CARGO_TARGET_DIR="$wt/target"
 cd "$wt" || exit 2
 git checkout -q -- . ; git clean -fdq -e target
-demo_name="${pid}_demo${n}"
+demo_name="${pid}_demo${store}"
 ext=tests
 cp "$out/demo$n.rs" "tests/$demo_name.rs"
 run_demo() { cargo test --offline --all-features --test "$demo_name" >"$out/demo$n.$1.log" 2>&1; }
@@ -26,7 +26,7 @@ libres="$(grep -E '^test result' "$out/lib$n.log" | head -1)"
 git checkout -q -- . ; git clean -fdq -e target
 echo "demo without change: rc=$rc_without; with change: rc=$rc_with; pinned suite rc=$rc_suite ($pinned); all-features lib rc=$rc_lib ($libres)"
 if [ $rc_without -ne 0 ] || [ $rc_with -eq 0 ] || [ $rc_suite -ne 0 ] || [ $rc_lib -ne 0 ]; then echo "NOT CONFIRMED"; exit 1; fi
-d="/verif/seeded/$PID-$n"; mkdir -p "$d"
+d="/verif/seeded/$PID-$store"; mkdir -p "$d"
 cp "$out/change$n.diff" "$d/patch.diff"; cp "$out/demo$n.rs" "$d/demo.rs"
 [ -f "$out/notes.md" ] && cp "$out/notes.md" "$d/notes.md"
 python3 - "$d/meta.json" "$PID" "$needs" "$pinned" "$libres" "$demo_name" <<'PY'
